@@ -221,6 +221,9 @@ func TestPropDecompressHostile(t *testing.T) {
 		if err != nil {
 			t.Fatalf("%v", err)
 		}
+		if strings.HasPrefix(class, "excluded") {
+			return
+		}
 		vlib.Case(fmt.Sprintf("decompress(% x) -> %s", in[:min(len(in), 64)], class)+fmt.Sprintf(" len=%d crc=%08x", len(in), crc32.ChecksumIEEE(in)),
 			class != "not-gzip", "decompress-"+class)
 	})
@@ -234,6 +237,9 @@ func TestPropDecompressExhaustive(t *testing.T) {
 		class, err := checkDecompress(in, true)
 		if err != nil {
 			t.Fatalf("%v", err)
+		}
+		if strings.HasPrefix(class, "excluded") {
+			return
 		}
 		vlib.Case(fmt.Sprintf("exhaustive decompress(% x) len=%d -> %s", in[:min(len(in), 40)], len(in), class), class != "not-gzip", "exhaustive-"+class)
 	}
